@@ -118,7 +118,7 @@ class Universe:
             self.hashable = False  # (a built-in set operand would merge the three items before the container sees them)
         elif name == "eqtuple":
             # per key two EQUAL but distinguishable items ('a', 1) == ('a', 1.0): "the most recently added item"
-            self.specs = [(x, p) for x in self.keys for p in (1, 1.0)]
+            self.specs = [(x, p) for x in self.keys for p in ("int", "float")]  # (labels: (x, 1) and (x, 1.0) would be ONE dict key)
             self.keyfn, self.targs = first, (tuple, str)
             self.wrong = [("wrong_item", ["q", 0])]
             self.hashable = False  # (same reason)
@@ -153,6 +153,8 @@ class Universe:
                 pool[s] = _spec_classes()["SItem"](key=s[0], value=s[1])
             elif self.name in ("ulist", "tlist"):
                 pool[s] = [s[0], s[1]]
+            elif self.name == "eqtuple":
+                pool[s] = (s[0], 1 if s[1] == "int" else 1.0)
             elif self.name == "eqrepr":
                 pool[s] = {"1": 1, "True": True, "1.0": 1.0}[s[0]]
             else:
